@@ -1,6 +1,7 @@
 package main
 
 import (
+	"encoding/json"
 	"flag"
 	"fmt"
 	"os"
@@ -53,12 +54,19 @@ func main() {
 	verif := flag.String("verif", "/verif", "verif root")
 	replay := flag.String("replay", "", "replay file: re-evaluate exactly that obligation")
 	dump := flag.Bool("dump", false, "print all obligations")
+	asJSON := flag.Bool("json", false, "print the obligations as JSON and nothing else (used by the thorough tier's sub-runs)")
+	tags := flag.String("tags", "", "build tags")
 	dbg := flag.String("trace", "", "debug: print traces of a function (FuncKey)")
 	var muts multiFlag
 	flag.Var(&muts, "mut", "debug/self-test: in-memory mutation 'relpath|old|new' (repeatable); files on disk are not touched")
 	flag.Parse()
 	overlay, err := buildOverlay(*repo, muts)
 	if err != nil {
+		if *asJSON {
+			b, _ := json.Marshal(subResult{NotApplic: err.Error()})
+			fmt.Println(string(b))
+			return
+		}
 		fmt.Println("mutation not applicable:", err)
 		os.Exit(3)
 	}
@@ -99,7 +107,12 @@ func main() {
 	}
 	t0 := time.Now()
 	code := func() (code int) {
-		p, err := LoadProgram(*repo, overlay, nil, "")
+		p, err := LoadProgram(*repo, overlay, nil, *tags)
+		if err != nil && *asJSON {
+			b, _ := json.Marshal(subResult{LoadError: err.Error()})
+			fmt.Println(string(b))
+			return 0
+		}
 		if err != nil {
 			// the tree does not type-check: fail closed
 			fmt.Printf("  load failed: %v\n", err)
@@ -115,6 +128,11 @@ func main() {
 			}
 		}()
 		run(c)
+		if *asJSON {
+			b, _ := json.Marshal(subResult{Obs: c.Obs})
+			fmt.Println(string(b))
+			return 0
+		}
 		if *dump {
 			for _, o := range c.Obs {
 				fmt.Printf("%-9s %-32s %-70s %s  %s\n", o.Status, o.Rule, o.Construct, o.Pos, o.Detail)
@@ -124,10 +142,16 @@ func main() {
 			return doReplay(c, *replay)
 		}
 		extra := map[string]interface{}{}
+		broken := 0
 		if *tier == "thorough" {
-			thorough(c, *repo, *verif, extra)
+			broken = thorough(c, *repo, *verif, extra)
 		}
-		return c.Finish(*verif, *tier, seed, time.Since(t0).Seconds(), extra)
+		code = c.Finish(*verif, *tier, seed, time.Since(t0).Seconds(), extra)
+		if code == 0 && broken > 0 {
+			fmt.Printf("BROKEN-CHECK: %d self-test failures (the verdict on /repo above stands, but the checker did not behave as specified on its self test)\n", broken)
+			return 2
+		}
+		return code
 	}()
 	os.Exit(code)
 }
